@@ -1081,6 +1081,20 @@ func (c *TermCtx) Polarize(t *Term, pos bool, memo map[[2]int]*Term) *Term {
 		if a != t.args[0] || b != t.args[1] {
 			r = c.Implies(a, b)
 		}
+	case t.kind == kQuant && !t.bound && ((t.op == "forall" && !pos) || (t.op == "exists" && pos)):
+		// a universal statement to be proved, or an existential one that is assumed: name the witnesses
+		// (skolem constants), so that instance generation and the solvers see ground terms
+		b := t.args[0]
+		for _, v := range t.bvars {
+			c.fresh["sk"]++
+			k := c.intern(&Term{kind: kVar, name: fmt.Sprintf("sk!%s!%d", strings.TrimSuffix(v.name, "?"), c.fresh["sk"]), sort: v.sort})
+			b = c.Subst(b, v, k, map[int]*Term{})
+		}
+		r = c.Polarize(b, pos, memo)
+		if t.op == "forall" {
+			// keep the quantified form as an alternative: it closes at once against an identical assumption
+			r = c.Or(t, r)
+		}
 	case t.kind == kQuant:
 		b := c.Polarize(t.args[0], pos, memo)
 		if b != t.args[0] {
